@@ -276,7 +276,7 @@ func genVal(prop string) func(rt *rapid.T) interface{} {
 		case "C09":
 			kinds = []string{"aset", "aset", "aget", "kget", "kget", "kacc", "kput", "kput"}
 		case "C10":
-			kinds = []string{"aset", "aset", "aset", "kput", "kput", "ksub", "ksub", "ksub", "kunsub", "kclose", "kget"}
+			kinds = []string{"aset", "aset", "aset", "aburst", "aburst", "kput", "kput", "kslowput", "kslowput", "kbusyburst", "kbusyburst", "ksub", "ksub", "ksub", "kunsub", "kclose", "kget"}
 		case "C11":
 			kinds = []string{"aset", "aconn", "kput", "kput", "kput", "ksub", "ksub", "kget", "kacc"}
 		case "C12":
@@ -326,6 +326,9 @@ func genVal(prop string) func(rt *rapid.T) interface{} {
 						op.Chars = append(op.Chars, work[rapid.IntRange(0, len(work)-1).Draw(rt, "wid")])
 					}
 				}
+			case "kbusyburst":
+				op.Chars = []int{pos, work[rapid.IntRange(0, len(work)-1).Draw(rt, "pos2")]}
+				op.K = rapid.IntRange(0, 100000).Draw(rt, "k")
 			case "kacc", "kclose":
 				op.Chars = []int{pos}
 			case "aget":
@@ -812,6 +815,23 @@ func (vw *valWorld) appOp(name string, op ValOp) {
 			vw.w.Sim.Count("ctor." + vc.name)
 			vw.record(vc.pos, porcupine.Operation{ClientId: clientID, Input: regInput{write: true, val: wr.value}, Call: int64(wr.inv), Output: "", Return: int64(wr.ret)})
 		}
+	case "aburst":
+		// three changes in a row, the last one back to the first value
+		a := vw.valueOf(vc, op)
+		op2 := op
+		op2.K++
+		b := vw.valueOf(vc, op2)
+		if canon(toNative(vc.fmt, a)) == canon(toNative(vc.fmt, b)) {
+			op2.K += 3
+			b = vw.valueOf(vc, op2)
+		}
+		for _, v := range []interface{}{a, b, a} {
+			wr := &valWrite{pos: vc.pos, value: vw.expectStored(vc, v), origin: name, conn: -1, inv: s.Seq()}
+			vw.writes = append(vw.writes, wr)
+			vc.c.UpdateValue(toNative(vc.fmt, v))
+			wr.ret = s.Seq()
+		}
+		vw.w.Sim.Count("probe.burst_of_three_changes")
 	case "aget":
 		inv := s.Seq()
 		v := vc.c.GetValue()
@@ -1014,6 +1034,91 @@ func (vw *valWorld) ctlOp(name string, cl *ref.Client, c *core.Conn, op ValOp) {
 			vw.w.Sim.Count("ctor." + vc.name)
 			vw.record(vc.pos, porcupine.Operation{ClientId: clientID, Input: regInput{write: true, val: wr.value}, Call: int64(wr.inv), Output: "", Return: int64(wr.ret)})
 		}
+	case "kbusyburst":
+		// subscribe to c, then keep the connection busy with a request whose body comes in two
+		// parts, and let the application change c three times (A, B, A) in between
+		vc := vw.chars[op.Chars[0]]
+		vd := vw.chars[op.Chars[len(op.Chars)-1]]
+		sub, _ := json.Marshal(map[string]interface{}{"characteristics": []map[string]interface{}{{"aid": vc.aid, "iid": vc.c.ID, "ev": true}}})
+		so := &valSubOp{conn: c.ID, pos: vc.pos, on: true, inv: s.Seq()}
+		if _, err := cl.Do("PUT", "/characteristics", ref.CTypeJSON, sub); err != nil {
+			vw.requestFailed(cl, "%s subscribe: %v", name, err)
+			return
+		}
+		so.ret = s.Seq()
+		so.accepted = hasPerm(vc.perm, "ev")
+		vw.subs = append(vw.subs, so)
+		var body []byte
+		var wr *valWrite
+		if vd.pos != vc.pos {
+			v := vw.valueOf(vd, op)
+			body, _ = json.Marshal(map[string]interface{}{"characteristics": []map[string]interface{}{{"aid": vd.aid, "iid": vd.c.ID, "value": v}}})
+			wr = &valWrite{pos: vd.pos, value: vw.expectStored(vd, v), origin: name, conn: c.ID, inv: s.Seq(), remote: true, refused: !hasPerm(vd.perm, "pw")}
+			vw.writes = append(vw.writes, wr)
+		} else {
+			body, _ = json.Marshal(map[string]interface{}{"characteristics": []map[string]interface{}{{"aid": vc.aid, "iid": vc.c.ID, "ev": true}}})
+		}
+		req := ref.Request("PUT", "/characteristics", ref.CTypeJSON, body)
+		cut := len(req) - len(body)/2 - 1
+		vw.w.Step(name, "busy burst, first part")
+		if err := cl.Send(req[:cut]); err != nil {
+			vw.requestFailed(cl, "%s busy burst: %v", name, err)
+			return
+		}
+		// the request head must have reached the accessory before the application acts
+		vw.w.StepWhen(name, "busy burst, application acts", func() bool { return !c.Pending(0) && c.Unread(0) == 0 })
+		a := vw.valueOf(vc, op)
+		op2 := op
+		op2.K++
+		b := vw.valueOf(vc, op2)
+		if canon(toNative(vc.fmt, a)) == canon(toNative(vc.fmt, b)) {
+			op2.K += 3
+			b = vw.valueOf(vc, op2)
+		}
+		for _, v := range []interface{}{a, b, a} {
+			w2 := &valWrite{pos: vc.pos, value: vw.expectStored(vc, v), origin: "app-in-" + name, conn: -1, inv: s.Seq()}
+			vw.writes = append(vw.writes, w2)
+			vc.c.UpdateValue(toNative(vc.fmt, v))
+			w2.ret = s.Seq()
+		}
+		vw.w.Sim.Count("probe.burst_while_subscriber_busy")
+		vw.w.Step(name, "busy burst, second part")
+		if err := cl.Send(req[cut:]); err != nil {
+			vw.requestFailed(cl, "%s busy burst: %v", name, err)
+			return
+		}
+		if _, err := cl.Recv(); err != nil {
+			vw.requestFailed(cl, "%s busy burst: %v", name, err)
+			return
+		}
+		if wr != nil {
+			wr.ret = s.Seq()
+		}
+	case "kslowput":
+		// a write whose body arrives in two parts: the connection is busy with the request in between
+		vc := vw.chars[op.Chars[0]]
+		v := vw.valueOf(vc, op)
+		body, _ := json.Marshal(map[string]interface{}{"characteristics": []map[string]interface{}{{"aid": vc.aid, "iid": vc.c.ID, "value": v}}})
+		wr := &valWrite{pos: vc.pos, value: vw.expectStored(vc, v), origin: name, conn: c.ID, inv: s.Seq(), remote: true, refused: !hasPerm(vc.perm, "pw")}
+		vw.writes = append(vw.writes, wr)
+		req := ref.Request("PUT", "/characteristics", ref.CTypeJSON, body)
+		cut := len(req) - len(body)/2 - 1
+		vw.w.Step(name, "slow put, first part")
+		if err := cl.Send(req[:cut]); err != nil {
+			vw.requestFailed(cl, "%s slow PUT: %v", name, err)
+			return
+		}
+		vw.w.Sim.Count("probe.connection_kept_busy")
+		vw.w.Step(name, "slow put, second part")
+		if err := cl.Send(req[cut:]); err != nil {
+			vw.requestFailed(cl, "%s slow PUT: %v", name, err)
+			return
+		}
+		if _, err := cl.Recv(); err != nil {
+			vw.requestFailed(cl, "%s slow PUT %s=%s: %v", name, vc.name, canon(v), err)
+			return
+		}
+		wr.ret = s.Seq()
 	case "ksub", "kunsub":
 		vc := vw.chars[op.Chars[0]]
 		on := op.Kind == "ksub"
